@@ -163,6 +163,8 @@ class Ctx:
     def validate(self, module, shards, cfg=None, timeout=3600, heap="3g", env=None, count=True):
         """TLC-validate every shard (one TLC process per shard, in parallel); collect verdicts"""
         if not shards:
+            if self.failures:          # the driver stopped on an exception inside felupe before writing anything: already reported
+                return []
             raise MachineryError("no trace shards to validate for %s" % module)
 
         def one(sh):
